@@ -1010,12 +1010,29 @@ class TorchBackendProvider(BackendProvider):
 
         param_names = list(self._collect_params(ir))
         fn_source = f"def _expr({', '.join(param_names)}): return {source}"
-        ns = {}
+        ns = self._compiled_helpers()
         try:
             exec(fn_source, ns)
         except Exception:
             return None
         return (ns['_expr'], var_syms)
+
+    def _compiled_helpers(self):
+        """Helpers for compiled code (see NumpyBackendProvider._compiled_helpers): Divide and Power go
+        through the verb implementations; reduce/scan shortcuts only apply to non-empty tensors and
+        otherwise raise so that the caller falls back to the interpreter."""
+        from ..dyads import eval_dyad_divide, eval_dyad_power
+
+        def _vec(x):
+            if not isinstance(x, torch.Tensor) or x.ndim == 0 or x.numel() == 0:
+                raise TypeError("compiled reduce/scan needs a non-empty tensor")
+            return x
+
+        return {
+            '_div': lambda a, b: eval_dyad_divide(a, b, self),
+            '_pow': lambda a, b: eval_dyad_power(a, b, self),
+            '_vec': _vec,
+        }
 
     def _ir_to_source(self, ir):
         """Convert IR tree to Python source string with torch operations."""
@@ -1033,7 +1050,11 @@ class TorchBackendProvider(BackendProvider):
             r = self._ir_to_source(right)
             if l is None or r is None:
                 return None
-            py_op = {'+': '+', '-': '-', '*': '*', '%': '/', '^': '**'}.get(op)
+            if op == '%':
+                return f'_div({l},{r})'
+            if op == '^':
+                return f'_pow({l},{r})'
+            py_op = {'+': '+', '-': '-', '*': '*'}.get(op)
             if py_op is None:
                 return None
             return f'({l}{py_op}{r})'
@@ -1063,7 +1084,7 @@ class TorchBackendProvider(BackendProvider):
             method = {'+': 'sum', '*': 'prod', '|': 'amax', '&': 'amin'}.get(op)
             if method is None:
                 return None
-            return f'({arg_src}).{method}(0)'
+            return f'_vec({arg_src}).{method}(0)'
 
         if node_type == 'scan':
             op, arg = ir[1], ir[2]
@@ -1079,7 +1100,7 @@ class TorchBackendProvider(BackendProvider):
             method = methods.get(op)
             if method is None:
                 return None
-            return f'({arg_src}).{method}'
+            return f'_vec({arg_src}).{method}'
 
         return None
 
